@@ -100,6 +100,9 @@ func noBreak(hdr *ssa.BasicBlock) (bool, string) {
 	// blocks reachable from exit (the code after the loop)
 	after := ir.Reach(exit, map[*ssa.BasicBlock]bool{hdr: true}, nil)
 	for b := range body {
+		if after[b] && ir.IsReturnJoin(b) {
+			continue // leaving the loop straight into `return result` is an early return
+		}
 		if after[b] {
 			return false, fmt.Sprintf("the code after the loop is reachable from inside the body (break) via block %d", b.Index)
 		}
@@ -140,8 +143,11 @@ func fsm1(c *Ctx) {
 	// (d) false only after a full scan
 	okFalse := true
 	why := ""
-	for _, r := range ir.Returns(fn) {
+	for _, r := range ir.ReturnPoints(fn) {
 		if b, isC := ir.ConstBool(r.Results[0]); isC && !b {
+			if r.Join != nil && r.At == outerHdr {
+				continue
+			}
 			if len(r.Block().Preds) != 1 || r.Block().Preds[0] != outerHdr {
 				okFalse = false
 				why = "return false is reachable from somewhere other than the exhausted scan"
@@ -215,8 +221,14 @@ func fsm1(c *Ctx) {
 				continue
 			}
 			f := ir.Static(cv)
-			if f == nil || f.Pkg != fn.Pkg || len(cv.Call.Args) != 2 || cv.Call.Args[0] != ssa.Value(recv) || cv.Call.Args[1] != innerElem {
+			if f == nil || f.Pkg != fn.Pkg || len(cv.Call.Args) != 2 || cv.Call.Args[1] != innerElem {
 				continue
+			}
+			if cv.Call.Args[0] != ssa.Value(recv) {
+				// or the receiver's current list itself
+				if b, isT := fieldOf(stripConv(cv.Call.Args[0]), "Transitions"); !isT || b != ssa.Value(recv) {
+					continue
+				}
 			}
 			if !isHasPredicate(c, f) {
 				continue
@@ -294,7 +306,7 @@ func fsm1(c *Ctx) {
 				if good && sawNext {
 					okTerm = true
 					// the unconditional store itself must lie on every path to `return true` after the expansion
-					for _, r := range ir.Returns(fn) {
+					for _, r := range ir.ReturnPoints(fn) {
 						if b, isC := ir.ConstBool(r.Results[0]); isC && b && innerHdr != nil && innerHdr.Dominates(r.Block()) {
 							if !(st.Block() == r.Block() || st.Block().Dominates(r.Block())) {
 								okTerm = false
@@ -308,7 +320,7 @@ func fsm1(c *Ctx) {
 	if okTerm && termTest != nil {
 		// the inheritance must lie on every path from the expansion to `return true`
 		if ti, isI := termTest.(ssa.Instruction); isI {
-			for _, r := range ir.Returns(fn) {
+			for _, r := range ir.ReturnPoints(fn) {
 				if b, isC := ir.ConstBool(r.Results[0]); isC && b && innerHdr != nil && innerHdr.Dominates(r.Block()) {
 					if !ti.Block().Dominates(r.Block()) {
 						okTerm = false
@@ -351,7 +363,7 @@ func isHasPredicate(c *Ctx, f *ssa.Function) bool {
 	}
 	c.Mark(f)
 	ok := false
-	for _, r := range ir.Returns(f) {
+	for _, r := range ir.ReturnPoints(f) {
 		if b, isC := ir.ConstBool(r.Results[0]); isC && b {
 			// dominated by two equalities
 			var eqNext, eqMatcher bool
@@ -413,7 +425,7 @@ func isRemovalValue(v ssa.Value, recv ssa.Value) bool {
 
 // removesOne: f returns a freshly made slice of length len(arr)-1.
 func removesOne(f *ssa.Function) bool {
-	for _, r := range ir.Returns(f) {
+	for _, r := range ir.ReturnPoints(f) {
 		ms, ok := stripConv(r.Results[0]).(*ssa.MakeSlice)
 		if !ok {
 			return false
@@ -436,7 +448,7 @@ func removesOne(f *ssa.Function) bool {
 			return false
 		}
 	}
-	return len(ir.Returns(f)) > 0
+	return len(ir.ReturnPoints(f)) > 0
 }
 
 func fsm2(c *Ctx) {
@@ -595,7 +607,7 @@ func fixpointMeasure(c *Ctx, caller *ssa.Function, loopB *ssa.BasicBlock, call *
 		}
 		appendStores = append(appendStores, st)
 	})
-	for _, r := range ir.Returns(step) {
+	for _, r := range ir.ReturnPoints(step) {
 		v, isC := ir.ConstBool(r.Results[0])
 		if !isC {
 			return "step verdict is not constant"
@@ -733,22 +745,27 @@ func fsm3(c *Ctx) {
 		// edges: nil init, itself, append(acc, rec)
 		okRec = true
 		sawAppend := false
-		for i, e := range acc.Edges {
+		for _, lf := range flattenPhi(acc) {
+			e, pred := lf.v, lf.pred
 			switch {
 			case ir.IsNilConst(e):
 			case e == ssa.Value(acc):
 				// must come from the verdict-false edge only
-				if !ir.HoldsAt(verdict, false, hdr1.Preds[i]) && hdr1.Preds[i] != match.Block() {
+				if !ir.HoldsAt(verdict, false, pred) && pred != match.Block() {
 					okRec, why = false, "the accumulator is carried unchanged on a path where the match succeeded"
 				}
 			default:
 				base, el, isApp := appendedSingle(e)
 				al, isAl := el.(*ssa.Alloc)
+				if ld, isLd := el.(*ssa.UnOp); isLd && ld.Op == token.MUL && !isAl {
+					// a record kept by value: the literal is copied into the slice
+					al, isAl = ld.X.(*ssa.Alloc)
+				}
 				if !isApp || base != ssa.Value(acc) || !isAl {
 					okRec, why = false, "the accumulator is not extended by append(matches, record)"
 					continue
 				}
-				if !ir.HoldsAt(verdict, true, hdr1.Preds[i]) {
+				if !ir.HoldsAt(verdict, true, pred) {
 					okRec, why = false, "a record is appended without a successful match"
 				}
 				fields, _ := litFields(al)
@@ -811,7 +828,7 @@ func fsm3(c *Ctx) {
 		rb, _, okR := ir.FieldLoad(rec.Call.Args[1])
 		pb, _, okP := ir.FieldLoad(rec.Call.Args[2])
 		if m != nil && okR && okP && rb == m && pb == m {
-			sl, h, isR := rangeElemHeader(m)
+			sl, h, isR := rangeElemHeader(valueCopySource(m))
 			if isR && sl == ssa.Value(acc) {
 				hdr2 = h
 				okTry = true
@@ -832,14 +849,16 @@ func fsm3(c *Ctx) {
 	// returns
 	okRet := true
 	why = ""
-	for _, r := range ir.Returns(fn) {
+	for _, r := range ir.ReturnPoints(fn) {
 		v, isC := ir.ConstBool(r.Results[0])
 		if !isC {
 			okRet, why = false, "non-constant verdict"
 			continue
 		}
 		if !v {
-			if hdr2 == nil || len(r.Block().Preds) != 1 || r.Block().Preds[0] != hdr2 {
+			if r.Join != nil && r.At == hdr2 && hdr2 != nil {
+				// single-exit form: the result stays false when the loop over the records is exhausted
+			} else if hdr2 == nil || len(r.Block().Preds) != 1 || r.Block().Preds[0] != hdr2 {
 				okRet, why = false, fmt.Sprintf("return false at %s is not the exhaustion of the recorded matches", c.P.Pos(r.Pos()))
 			}
 		} else {
@@ -871,15 +890,41 @@ func fsm3(c *Ctx) {
 }
 
 func allPathsReturnConst(b *ssa.BasicBlock, want bool) bool {
-	for r := range ir.Reach(b, nil, nil) {
-		if ir.IsReturn(r) {
-			ret := r.Instrs[len(r.Instrs)-1].(*ssa.Return)
-			if v, isC := ir.ConstBool(ret.Results[0]); !isC || v != want {
-				return false
-			}
+	region := ir.Reach(b, nil, nil)
+	for _, rp := range ir.ReturnPoints(b.Parent()) {
+		if !region[rp.At] {
+			continue
+		}
+		if v, isC := ir.ConstBool(rp.Results[0]); !isC || v != want {
+			return false
 		}
 	}
 	return true
+}
+
+// phiLeaf is a value a loop-carried phi can take and the block it comes from.
+type phiLeaf struct {
+	v    ssa.Value
+	pred *ssa.BasicBlock
+}
+
+// flattenPhi expands the edges of phi through the plain (non loop-header) joins that feed it.
+func flattenPhi(phi *ssa.Phi) []phiLeaf {
+	var out []phiLeaf
+	seen := map[*ssa.Phi]bool{phi: true}
+	var walk func(p *ssa.Phi, depth int)
+	walk = func(p *ssa.Phi, depth int) {
+		for i, e := range p.Edges {
+			if q, ok := e.(*ssa.Phi); ok && !seen[q] && depth < 4 && !isLoopHeader(q.Block()) {
+				seen[q] = true
+				walk(q, depth+1)
+				continue
+			}
+			out = append(out, phiLeaf{e, p.Block().Preds[i]})
+		}
+	}
+	walk(phi, 0)
+	return out
 }
 
 func fsm4(c *Ctx) {
@@ -914,10 +959,51 @@ func fsm4(c *Ctx) {
 	fresh, isAl := match.Call.Args[1].(*ssa.Alloc)
 	okFresh := false
 	why := "the context handed to Match is not a fresh NewParseContext() of the same iteration"
+	// the caller's context, or a by-value copy of it taken when no later write to the caller's flag can follow
+	isCallerCtx := func(b ssa.Value) bool {
+		if b == ssa.Value(pcLocal) {
+			return true
+		}
+		al, ok := b.(*ssa.Alloc)
+		if !ok {
+			return false
+		}
+		fields, whole := litFields(al)
+		if len(fields) != 0 || len(whole) != 1 {
+			return false
+		}
+		ld, isLd := whole[0].(*ssa.UnOp)
+		if !isLd || ld.Op != token.MUL || ld.X != ssa.Value(pcLocal) {
+			return false
+		}
+		after := ir.Reach(ld.Block(), nil, nil)
+		okCopy := true
+		ir.Instrs(fn, func(in ssa.Instruction) {
+			st, isSt := in.(*ssa.Store)
+			if !isSt {
+				return
+			}
+			base := st.Addr
+			if fa, isFA := st.Addr.(*ssa.FieldAddr); isFA {
+				base = fa.X
+			}
+			if base != ssa.Value(pcLocal) {
+				return
+			}
+			if st.Block() == ld.Block() {
+				if ir.IndexIn(st) > ir.IndexIn(ld) || ir.InLoop(ld.Block()) {
+					okCopy = false
+				}
+			} else if after[st.Block()] {
+				okCopy = false
+			}
+		})
+		return okCopy
+	}
 	if isAl && fresh.Block() == match.Block() {
-		fields, whole := litFields(fresh)
+		fields, whole := structContent(fresh, 0)
 		if len(whole) == 1 {
-			if cv, ok := whole[0].(*ssa.Call); ok && ir.Static(cv) == newCtx && newCtx != nil {
+			if cv, ok := whole[0].(*ssa.Call); ok && ir.Static(cv) == newCtx && newCtx != nil && cv.Block() == match.Block() {
 				okFresh = true
 			}
 		}
@@ -925,7 +1011,7 @@ func fsm4(c *Ctx) {
 		if okFresh {
 			okFlag := false
 			if len(ro) == 1 {
-				if b, f, ok := ir.FieldLoad(ro[0]); ok && f == "RejectOptions" && b == ssa.Value(pcLocal) {
+				if b, f, ok := ir.FieldLoad(ro[0]); ok && f == "RejectOptions" && isCallerCtx(b) {
 					okFlag = true
 				}
 			}
@@ -1027,6 +1113,9 @@ func fsm4(c *Ctx) {
 		okRoot := false
 		for _, call := range ir.Calls(parse) {
 			if cv, ok := call.(*ssa.Call); ok && ir.Static(cv) == fn {
+				if nc, ok := cv.Call.Args[2].(*ssa.Call); ok && ir.Static(nc) == newCtx {
+					okRoot = true
+				}
 				if ld, isLd := cv.Call.Args[2].(*ssa.UnOp); isLd {
 					if al, isAl := ld.X.(*ssa.Alloc); isAl {
 						_, whole := litFields(al)
@@ -1041,6 +1130,69 @@ func fsm4(c *Ctx) {
 		}
 		c.Check(okRoot, Q(parse)+":root-context", parse.Pos(), "every parse starts from a fresh context", "Parse does not start the matcher loop from a fresh NewParseContext()")
 	}
+}
+
+// structContent returns what a struct local holds: the value it was assigned as a whole and the fields
+// stored afterwards. A whole assignment that is a by-value copy of another local (`b := a`) is resolved
+// to that local's content at the time of the copy (stores that precede the copying load).
+func structContent(al *ssa.Alloc, depth int) (fields map[string][]ssa.Value, whole []ssa.Value) {
+	fields, whole = litFields(al)
+	if depth > 3 || len(whole) != 1 {
+		return
+	}
+	ld, ok := whole[0].(*ssa.UnOp)
+	if !ok || ld.Op != token.MUL {
+		return
+	}
+	src, ok := ld.X.(*ssa.Alloc)
+	if !ok || src.Parent() != al.Parent() {
+		return
+	}
+	precedes := func(st ssa.Instruction) bool {
+		if st.Block() == ld.Block() {
+			return ir.IndexIn(st) < ir.IndexIn(ld)
+		}
+		return st.Block().Dominates(ld.Block())
+	}
+	sf, sw := structContent(src, depth+1)
+	// only stores to src that precede the copy count; if any store to src does not clearly precede or
+	// follow it in straight-line code, give up
+	for _, u := range *src.Referrers() {
+		switch x := u.(type) {
+		case *ssa.Store:
+			if x.Addr == ssa.Value(src) && !precedes(x) {
+				return
+			}
+		case *ssa.FieldAddr:
+			for _, uu := range *x.Referrers() {
+				if st, isSt := uu.(*ssa.Store); isSt && st.Addr == ssa.Value(x) && !precedes(st) {
+					return
+				}
+			}
+		}
+	}
+	out := map[string][]ssa.Value{}
+	for k, v := range sf {
+		out[k] = v
+	}
+	for k, v := range fields {
+		out[k] = v // a field stored on the copy overrides the copied one
+	}
+	return out, sw
+}
+
+// valueCopySource: m is a struct local that only ever holds a copy of one value (`for _, m := range xs`
+// with struct elements): returns that value, else m itself.
+func valueCopySource(m ssa.Value) ssa.Value {
+	al, ok := m.(*ssa.Alloc)
+	if !ok {
+		return m
+	}
+	fields, whole := litFields(al)
+	if len(fields) == 0 && len(whole) == 1 {
+		return whole[0]
+	}
+	return m
 }
 
 func fsm4merge(c *Ctx, fn *ssa.Function) {
@@ -1137,34 +1289,75 @@ func fsm5(c *Ctx) {
 		switch {
 		case envSide[fn]:
 			c.OK("driver "+Q(fn), fn.Pos(), "env application (declaration time)")
-		case fn.Pkg == c.P.SPkg("internal/fsm"):
-			if filler != nil && filler != fn {
-				c.Bad("driver "+Q(fn), fn.Pos(), "a second function of fsm drives Set/Clear")
-			} else {
-				filler = fn
-				c.OK("driver "+Q(fn), fn.Pos(), "the container filler")
-			}
+		case filler == nil:
+			// the one function outside the env application that drives values: the container filler
+			filler = fn
 		default:
+			if Q(fn) < Q(filler) {
+				filler, fn = fn, filler
+			}
 			c.Bad("driver "+Q(fn), fn.Pos(), "Set/Clear invoked outside the container filler and the env application")
 		}
 	}
 	if filler == nil {
-		c.Bad("anchor:container-filler", token.NoPos, "no function of fsm invokes flag.Value.Set (drivers: %s)", strings.Join(names, ","))
+		c.Bad("anchor:container-filler", token.NoPos, "no function outside the env application invokes flag.Value.Set (drivers: %s)", strings.Join(names, ","))
 		return
 	}
+	c.OK("driver "+Q(filler), filler.Pos(), "the container filler")
 	ml, _ := c.matcherLoop()
-	// callers of the filler
-	for _, fn := range c.ClosureFuncsDeep() {
-		for _, call := range ir.Calls(fn) {
-			cv, ok := call.(*ssa.Call)
-			if !ok || ir.Static(cv) != filler {
-				continue
+	// callers of the filler; a caller that does not itself run the matcher loop is a wrapper: it must
+	// hand the error on, and its own callers are examined in its place
+	type useSite struct {
+		fn *ssa.Function
+		cv *ssa.Call
+	}
+	callsML := func(fn *ssa.Function) bool {
+		for _, c2 := range ir.Calls(fn) {
+			if ml != nil && ir.Static(c2) == ml {
+				return true
 			}
+		}
+		return false
+	}
+	var sites []useSite
+	var wrapperSites []useSite
+	var collect func(target *ssa.Function, depth int)
+	collect = func(target *ssa.Function, depth int) {
+		for _, fn := range c.ClosureFuncsDeep() {
+			for _, call := range ir.Calls(fn) {
+				cv, ok := call.(*ssa.Call)
+				if !ok || ir.Static(cv) != target {
+					continue
+				}
+				if callsML(fn) || depth >= 3 || fn == ml {
+					sites = append(sites, useSite{fn, cv})
+				} else {
+					wrapperSites = append(wrapperSites, useSite{fn, cv})
+					collect(fn, depth+1)
+				}
+			}
+		}
+	}
+	collect(filler, 0)
+	if len(sites) == 0 {
+		c.Bad("anchor:filler-call", filler.Pos(), "the container filler is not called from a function that runs the matcher loop")
+	}
+	for _, ws := range wrapperSites {
+		c.Mark(ws.fn)
+		sites = append(sites, ws)
+	}
+	isWrapper := map[*ssa.Function]bool{}
+	for _, ws := range wrapperSites {
+		isWrapper[ws.fn] = true
+	}
+	for _, us := range sites {
+		{
+			fn, cv := us.fn, us.cv
 			c.Mark(fn)
-			key := fmt.Sprintf("%s->%s", Q(fn), filler.Name())
+			key := fmt.Sprintf("%s->%s", Q(fn), ir.Static(cv).Name())
 			var problems []string
 			// dominated by a successful matcher loop
-			okDom := false
+			okDom := isWrapper[fn]
 			for _, c2 := range ir.Calls(fn) {
 				if mv, ok := c2.(*ssa.Call); ok && ir.Static(mv) == ml && ml != nil && ir.HoldsAt(mv, true, cv.Block()) {
 					okDom = true
@@ -1175,7 +1368,7 @@ func fsm5(c *Ctx) {
 			}
 			// error returned
 			okErr := false
-			for _, r := range ir.Returns(fn) {
+			for _, r := range ir.ReturnPoints(fn) {
 				if len(r.Results) == 1 && r.Results[0] == ssa.Value(cv) {
 					if r.Block() == cv.Block() || errIsNonNilAt(cv, r.Block()) {
 						okErr = true
@@ -1229,8 +1422,22 @@ func fsm5(c *Ctx) {
 
 func fsm6(c *Ctx) {
 	var filler *ssa.Function
+	envSide := map[*ssa.Function]bool{}
+	var walk func(fn *ssa.Function)
+	walk = func(fn *ssa.Function) {
+		if fn == nil || envSide[fn] || fn.Pkg == nil || !c.P.InModule(fn.Pkg.Pkg) {
+			return
+		}
+		envSide[fn] = true
+		for _, call := range ir.Calls(fn) {
+			walk(ir.Static(call))
+		}
+	}
+	for _, f := range envFuncs(c) {
+		walk(f)
+	}
 	for fn := range valueDrivers(c) {
-		if fn.Pkg == c.P.SPkg("internal/fsm") {
+		if !envSide[fn] && (filler == nil || Q(fn) < Q(filler)) {
 			filler = fn
 		}
 	}
@@ -1309,7 +1516,7 @@ func fsm6(c *Ctx) {
 	}
 	// error returned at once
 	okErr := false
-	for _, r := range ir.Returns(fn) {
+	for _, r := range ir.ReturnPoints(fn) {
 		if r.Results[0] == ssa.Value(set) && errIsNonNilAt(set, r.Block()) {
 			okErr = true
 		}
@@ -1553,7 +1760,7 @@ func fsm7(c *Ctx) {
 	okAcc := true
 	nAcc := 0
 	why := ""
-	for _, r := range ir.Returns(fn) {
+	for _, r := range ir.ReturnPoints(fn) {
 		if v, isC := ir.ConstBool(r.Results[0]); !isC || !v {
 			continue
 		}
@@ -1627,7 +1834,7 @@ func (c *Ctx) matchReturns(fn *ssa.Function, depth int, memo map[*ssa.Function][
 		}
 	}
 	add := func(k string, pos token.Pos) { out = append(out, consumeKind{k, pos}) }
-	for _, r := range ir.Returns(fn) {
+	for _, r := range ir.ReturnPoints(fn) {
 		verdict := r.Results[0]
 		vec := r.Results[len(r.Results)-1]
 		if v, isC := ir.ConstBool(verdict); isC && !v {
@@ -1706,7 +1913,7 @@ func (c *Ctx) matchReturns(fn *ssa.Function, depth int, memo map[*ssa.Function][
 
 // rebuildsVector: helper that returns a freshly made []string (token surgery).
 func rebuildsVector(f *ssa.Function) bool {
-	rs := ir.Returns(f)
+	rs := ir.ReturnPoints(f)
 	if len(rs) == 0 {
 		return false
 	}
